@@ -60,7 +60,7 @@ def proof_gate_gen(prop):
     gdir = os.path.join(core.CACHE, 'gate')
     os.makedirs(gdir, exist_ok=True)
     gfile = os.path.join(gdir, 'gen_' + prop + '.v')
-    open(gfile, 'w').write(src)
+    open(gfile, 'w').write(core.gate_source(src))
     with core.Lock('coq_gen'):
         rc, out = core.sh(['timeout', '600', 'coqc', '-Q', core.COQ, 'PV', '-Q', FAM.coq, 'PVGen', '-w', '-notation-overridden', gfile],
                           cwd=gdir, timeout=630)
@@ -68,29 +68,7 @@ def proof_gate_gen(prop):
         res['failed'] = 'Properties/%s.v' % prop
         res['error'] = out[-600:]
         return res
-    closed = out.count('Closed under the global context')
-    axioms = []
-    for blk in re.findall(r'Axioms:\n((?:.+\n?)+?)(?:\n|\Z)', out):
-        for ln in blk.splitlines():
-            mm = re.match(r'^(\S+)\s*:', ln)
-            if mm:
-                axioms.append(mm.group(1))
-    res['axioms'] = sorted(set(axioms))
-    bad_ax = [a for a in res['axioms'] if a not in core.AXIOM_ALLOW]
-    n_print = len(re.findall(r'^Print Assumptions', src, flags=re.M))
-    forb = core.grep_forbidden(FAM)
-    if bad_ax:
-        res['failed'] = 'axioms not in allowlist: ' + ', '.join(bad_ax)
-    elif forb:
-        res['failed'] = 'forbidden vernacular: ' + '; '.join(forb[:5])
-    elif n_print < len(thms):
-        res['failed'] = 'a theorem without Print Assumptions'
-    elif closed + len(re.findall(r'Axioms:', out)) < n_print:
-        res['failed'] = 'missing Print Assumptions output'
-    else:
-        res['ok'] = True
-        res['discharged'] = len(thms)
-    return res
+    return core.gate_verdict(src, thms, out, FAM, res)
 
 
 def build_runner_gen():
@@ -148,7 +126,79 @@ def gate_and_runner(chk, prop):
 # other deviation from the property on a type of the class is a violation of its own, with that case as replay.
 # (F-19a list-decode-leak is decided per input by the ownership model inside pv/props/c19.py.)
 MODELLED_CLASSES = {'keep-is-arg-swallow': 'F-13a', 'union-variant-retyped': 'F-08a', 'typedef-bool-size-compact': 'F-04a',
-                    'keep-async-no-retention': 'F-12a'}
+                    'keep-async-no-retention': 'F-12a', 'async-container-prealloc': 'F-09e'}
+
+F09E_CACHE = {}
+
+
+def _f09e_lines(case):
+    """(sync `dec` line, async `alloc` line, input length) answering whether THIS input makes the async decoder preallocate from an
+    oversized container count; None when the case line has no such reading"""
+    parts = case['line'].split(' ')
+    if len(parts) < 6 or parts[0] not in ('mem', 'dec', 'msg'):
+        return None
+    cfg, ty, proto, mode, hx = parts[1:6]
+    if ty.startswith('@') or not str(mode).startswith('async') or proto not in ('binary', 'compact', 'binary_le'):
+        return None
+    if parts[0] == 'msg':
+        # the body behind the envelope: <hex> <name offset> <name length>; binary: the sequence id (4 bytes) follows the name
+        try:
+            off, ln = int(parts[6]), int(parts[7])
+        except (IndexError, ValueError):
+            return None
+        start = off + ln + (4 if proto != 'compact' else 0)
+        if 2 * start > len(hx):
+            return None            # cut inside the envelope: no body decoder runs
+        hx = hx[2 * start:]
+    hx = hx or '-'
+    return ('dec %s %s %s sync %s' % (cfg, ty, proto, hx), 'alloc %s %s %s %s %s' % (cfg, ty, proto, mode, hx), len(hx) // 2 if hx != '-' else 0)
+
+
+def f09e_decide(chk, gb, cands):
+    """F-09e decided ON THE INPUT.  cands: async cases whose decoder crashed / panicked / hung / requested memory out of proportion.
+    -> [bool]: True only if the models show the defect on these very bytes: the SYNC model (same path through the message; the sync
+    readers check every container count against the bytes that remain) stops with size_limit / negative_size, i.e. the decoder's path
+    reaches a container header announcing a count that is negative or larger than the remaining bytes could hold, AND the async
+    allocation model (GenAlloc, runner op `alloc`) requests more than 4 KiB + 512 bytes per input byte for it.  Every other async crash
+    is not the known finding.  Counted in coverage.known_finding_attribution_F09e (confirmed / refused / skipped)."""
+    stats = chk.cov.setdefault('known_finding_attribution_F09e', dict(
+        rule='an async crash / panic / hang / memory excess counts as F-09e only if, on that input, the sync model stops at a container '
+             'header with size_limit / negative_size (count negative or above what the remaining bytes could hold) and the async allocation '
+             'model requests more than 4096 + 512 * |input| bytes; truncations without an oversized count are never excused',
+        confirmed=0, refused=0, skipped=0, refused_examples=[], skipped_examples=[]))
+    runner = FAM.runner if os.path.exists(FAM.runner) else None
+    todo, keys = [], []
+    for c in cands:
+        ls = _f09e_lines(c)
+        keys.append(None if ls is None else ls[1])
+        if ls is not None and ls[1] not in F09E_CACHE and runner is not None and ls[1] not in [t[1] for t in todo]:
+            todo.append(ls)
+    if todo:
+        outs = core.run_lines(runner, [x for t in todo for x in (t[0], t[1])], args=[os.path.join(gb.out_dir, 'schema.txt')])
+        import re
+        for k, t in enumerate(todo):
+            so, ao = outs[2 * k] or '', outs[2 * k + 1] or ''
+            m = re.search(r' ALLOC (-?\d+)', ao)
+            F09E_CACHE[t[1]] = (so.startswith('err size_limit') or so.startswith('err negative_size')) and m is not None \
+                and int(m.group(1)) > 4096 + 512 * t[2]
+            F09E_CACHE[t[1] + '#why'] = 'sync model: %s; async allocation model: %s' % (so[:40], ao[:60])
+    res = []
+    for c, k in zip(cands, keys):
+        if k is None or k not in F09E_CACHE:
+            if not c.get('_f09e_counted'):
+                stats['skipped'] += 1
+                if len(stats['skipped_examples']) < 10:
+                    stats['skipped_examples'].append(c['line'][:200])
+            res.append(False)
+        else:
+            ok = F09E_CACHE[k]
+            if not c.get('_f09e_counted'):
+                stats['confirmed' if ok else 'refused'] += 1
+                if not ok and len(stats['refused_examples']) < 10:
+                    stats['refused_examples'].append(dict(case=c['line'][:200], models=F09E_CACHE.get(k + '#why')))
+            res.append(ok)
+        c['_f09e_counted'] = True
+    return res
 
 
 def _model_line(line):
@@ -156,31 +206,40 @@ def _model_line(line):
     return 'dec' + line[3:] if line.startswith('mem ') else line
 
 
-def _agrees(gb, case, impl_line, model_line):
-    """None if the code's outcome on this line is the model's, else the difference"""
+def _agrees(gb, case, impl_line, model_line, own_line=None, chk=None):
+    """None if the code's outcome on this line is the model's, else the difference.  `mem` lines: outcome kind, and -- where the
+    ownership model answered (own_line: runner op `own`) -- the leak class: bytes that stay live although the model predicts no
+    undropped value are a difference"""
     import re
     from . import gencorr
     if case['line'].startswith('mem '):
-        m = re.match(r'^(ok|err|panic|hang) LIVE ', impl_line or '')
+        m = re.match(r'^(ok|err|panic|hang) LIVE (-?\d+) PEAK (\d+) REFS (\d+)', impl_line or '')
         ik = m.group(1) if m else 'crash'
         mk = gencorr._split_model(model_line or '')['kind']
-        if ik == mk or (case.get('proto') == 'unchecked' and ik == 'crash' and mk in ('err', 'panic')) or _async_prealloc(gb, case, ik, mk):
-            return None
-        return 'outcome: implementation %s, model %s' % ((impl_line or '')[:40], (model_line or '')[:40])
+        if not (ik == mk or (case.get('proto') == 'unchecked' and ik == 'crash' and mk in ('err', 'panic')) or _async_prealloc(gb, case, ik, mk, chk)):
+            return 'outcome: implementation %s, model %s' % ((impl_line or '')[:40], (model_line or '')[:40])
+        om = re.match(r'^(ok|err|panic)(?: \w+)? LEAK (\d+) HEAP (\d+)', own_line or '')
+        if m and om and ik == 'err' and (int(m.group(2)) != 0 or int(m.group(4)) != 0) and int(om.group(2)) == 0:
+            return 'leak class: implementation %s, ownership model %s' % ((impl_line or '')[:60], (own_line or '')[:40])
+        return None
     d = gencorr.compare(gb, case, impl_line, model_line)
-    if d and _async_prealloc(gb, case, genrun.Res(impl_line).kind, gencorr._split_model(model_line or '')['kind']):
+    if d and _async_prealloc(gb, case, genrun.Res(impl_line).kind, gencorr._split_model(model_line or '')['kind'], chk):
         return None
     return d
 
 
-def _async_prealloc(gb, case, ik, mk):
+def _async_prealloc(gb, case, ik, mk, chk=None):
     """F-09e (property C09): the emitted ASYNC container decoders hand the wire count to with_capacity before reading an
     element; where the model (which has no allocator) runs dry and reports an error, the code aborts / panics with capacity
     overflow / is busy allocating.  An outcome of the known defect's model `err` with such an implementation outcome, on an
     async line of a type with containers, is that interaction and not a third behaviour (same convention as C12g and C19)."""
     from . import genextra
-    return (str(case.get('mode', '')).startswith('async') and mk == 'err' and ik in ('crash', 'panic', 'hang')
-            and genextra.has_container(gb.schema, case['type']))
+    if not (str(case.get('mode', '')).startswith('async') and mk == 'err' and ik in ('crash', 'panic', 'hang')
+            and genextra.has_container(gb.schema, case['type'])):
+        return False
+    if chk is None:
+        return False           # no way to look at the input: not excused
+    return f09e_decide(chk, gb, [case])[0]
 
 
 def confirm_known(chk, gb, runner, failing, cases, outs, model_by_line):
@@ -194,8 +253,11 @@ def confirm_known(chk, gb, runner, failing, cases, outs, model_by_line):
     if not todo:
         return failing
     if runner is None:
+        # no extracted model to ask: nothing can be confirmed -- the class is dropped, the cases are reported
         stats['not_confirmable'] += len(todo)
-        return failing
+        stats.setdefault('not_confirmable_examples', []).extend(c['line'][:200] for c, _ in todo[:10])
+        return [(c, why + ' [class %s not confirmable: no model runner]' % cls if cls in MODELLED_CLASSES else why,
+                 None if cls in MODELLED_CLASSES else cls, o) for c, why, cls, o in failing]
     out_by_line = {c['line']: o for c, o in zip(cases, outs)}
     group = lambda c: [c] + [x for x in c.get('companions', []) if x.get('line')]
     need = []
@@ -203,10 +265,15 @@ def confirm_known(chk, gb, runner, failing, cases, outs, model_by_line):
         for cc in group(c):
             if cc['line'] not in model_by_line and cc['line'] not in need and cc['line'].split(' ')[0] in ('dec', 'renc', 'mem', 'dflt'):
                 need.append(cc['line'])
+    own_by_line = {}
     if need:
         extra = core.run_lines(runner, [_model_line(l) for l in need], args=[os.path.join(gb.out_dir, 'schema.txt')])
         model_by_line = dict(model_by_line)
         model_by_line.update(zip(need, extra))
+    mem_lines = sorted(set(cc['line'] for c, _cls in todo for cc in group(c) if cc['line'].startswith('mem ')))
+    if mem_lines:
+        # the leak class of `mem` lines: the ownership model's prediction (runner op `own`)
+        own_by_line = dict(zip(mem_lines, core.run_lines(runner, ['own' + l[3:] for l in mem_lines], args=[os.path.join(gb.out_dir, 'schema.txt')])))
     res = []
     for c, why, cls, o in failing:
         if cls not in MODELLED_CLASSES:
@@ -218,18 +285,37 @@ def confirm_known(chk, gb, runner, failing, cases, outs, model_by_line):
             stats['not_confirmable'] += 1
             res.append((c, why, cls, o))
             continue
-        diff = None
+        if cls == 'async-container-prealloc':
+            # F-09e is decided on the input (f09e_decide): the models must show the oversized container count on these bytes
+            if f09e_decide(chk, gb, [c])[0]:
+                stats['confirmed'] += 1
+                res.append((c, why, cls, o))
+            else:
+                stats['refused'] += 1
+                res.append((dict(c, not_the_known_finding=dict(cls=cls, finding='F-09e', models=F09E_CACHE.get((_f09e_lines(c) or ('', ''))[1] + '#why'))),
+                            '%s [on an async case of a type with containers, but NOT F-09e: no container header on the decoder\'s path announces a '
+                            'count beyond what the remaining bytes could hold (%s)]' % (why, F09E_CACHE.get((_f09e_lines(c) or ('', ''))[1] + '#why')), None, o))
+            continue
+        diff, answered = None, 0
         for cc in group(c):
-            if cc['line'] not in model_by_line:
+            if cc['line'] not in model_by_line or model_by_line[cc['line']] is None:
                 continue
             impl = out_by_line.get(cc['line'], o if cc is c else None)
             if impl is None:
                 continue
-            d = _agrees(gb, cc, impl, model_by_line[cc['line']])
+            answered += 1
+            d = _agrees(gb, cc, impl, model_by_line[cc['line']], own_by_line.get(cc['line']), chk)
             if d:
                 diff = (cc, d, impl, model_by_line[cc['line']])
                 break
-        if diff is None:
+        if diff is None and answered == 0:
+            # no line of the case has a model answer: nothing confirms that this is the known defect
+            stats['not_confirmable'] += 1
+            stats.setdefault('not_confirmable_examples', [])
+            if len(stats['not_confirmable_examples']) < 10:
+                stats['not_confirmable_examples'].append(c['line'][:200])
+            res.append((c, '%s [class %s (%s) not confirmable: the model gave no answer for this case]' % (why, cls, MODELLED_CLASSES[cls]), None, o))
+        elif diff is None:
             stats['confirmed'] += 1
             res.append((c, why, cls, o))
         else:
@@ -257,6 +343,11 @@ def run_check(chk, replay, prop, gen_cases, evaluate, rule, model_ops=('dec', 'r
         if prop not in genops.PROPS or not ok_ops or genops.current_digest() == st_ops.get('digest'):
             break
     chk.cov['emitted_ops'] = dict(ok=ok_ops, message=msg_ops[:300], stats=st_ops, gate_attempts=attempt + 1)
+    if prop in genops.PROPS and ok_ops and genops.current_digest() != st_ops.get('digest'):
+        # four attempts and the shared table was replaced by another process every time: the gate of this run was not about
+        # this run's emitted code -- not shown to hold
+        chk.violation('proof gate ran against an emitted-ops table that another process replaced (4 attempts); rerun without concurrent gen checks',
+                      dict(kind='proof', theorem_file='Proofs/EmitTableP.v', reason='Generated/EmittedOps.v digest changed under the gate'), no_input=True)
     if not ok_ops and prop in genops.PROPS:
         chk.violation('translator failed (emitted code -> ops): ' + msg_ops[:600], dict(kind='translator', output=msg_ops[:3000]), no_input=True)
     chk.cov['rule'] = rule
